@@ -309,6 +309,75 @@ def check_transport_bursts(ctx):
                 ctx.spec_violation(klass, case, f"callers {lost} got {[outs[k] for k in lost]}")
 
 
+async def _auto_id_round(explicit, q_first):
+    """Two callers on one pair: E with the caller-chosen id `explicit` (None: E lets the library choose too), Q with a
+    library-chosen id.  The peer answers each request with a token naming the caller it read the request from (params.who).
+    Returns ({who: outcome}, {who: id on the wire})."""
+    sm = importlib.import_module("chuk_mcp.protocol.messages.send_message")
+    from chuk_mcp.protocol.messages.json_rpc_message import parse_message
+    in_send, in_recv = anyio.create_memory_object_stream(1000)
+    out_send, out_recv = anyio.create_memory_object_stream(1000)
+    outs, ids = {}, {}
+
+    async def caller(who, mid):
+        try:
+            r = await sm.send_message(in_recv, out_send, "tools/call", {"who": who}, timeout=1.2, message_id=mid)
+            outs[who] = ("ret", r.get("for") if isinstance(r, dict) else None)
+        except TimeoutError:
+            outs[who] = ("timeout",)
+        except Exception as e:                          # noqa: BLE001
+            outs[who] = ("exc", type(e).__name__)
+
+    async def peer():
+        reqs = {}
+        while len(reqs) < 2:
+            m = await out_recv.receive()
+            reqs[m.params["who"]] = m
+            ids[m.params["who"]] = m.id
+        await anyio.sleep(0.1)
+        for who in (("Q", "E") if q_first else ("E", "Q")):
+            in_send.send_nowait(parse_message({"jsonrpc": "2.0", "id": reqs[who].id, "result": {"for": who}}))
+            await anyio.sleep(0.05)
+
+    async with anyio.create_task_group() as tg:
+        tg.start_soon(peer)
+        tg.start_soon(caller, "E", explicit)
+        await anyio.sleep(0.01)
+        tg.start_soon(caller, "Q", None)
+    return outs, ids
+
+
+def check_auto_id_collisions(ctx):
+    """Ids the library chooses must not collide with ids a caller chose for another outstanding request: the id the library
+    will hand out next is looked up the way a caller could (from the last two it handed out), used as an EXPLICIT id, and a
+    library-chosen request is issued beside it.  Only the cross-talk clause is judged here (a lost response in these orders is
+    the recorded discard finding)."""
+    seen = []
+    for _ in range(2):
+        _o, ids = vrun(_auto_id_round, "probe-explicit", False)
+        seen.append(ids.get("Q"))
+    ctx.extra["library_chosen_ids_sample"] = [str(x)[:40] for x in seen]
+    numeric = all(isinstance(x, str) and x.isdigit() for x in seen) or all(isinstance(x, int) and not isinstance(x, bool) for x in seen)
+    step = (int(seen[1]) - int(seen[0])) if numeric else 0
+    last = seen[-1]
+    for rnd in range(6):
+        q_first = bool(rnd % 2)
+        # the id E picks: the one the library is about to hand out, if that can be told from the last two; else the last one it
+        # handed out (re-using it as one's own is legal as well)
+        g = (type(last)(int(last) + step)) if (numeric and step in (1, 2) and rnd < 4) else last
+        outs, ids = vrun(_auto_id_round, g, q_first)
+        case = {"explicit_id_of_E": g, "library_chosen_id_of_Q": str(ids.get("Q")), "answers": "Q first" if q_first else "E first"}
+        ctx.case({**case, "round": rnd}, nontrivial=True)
+        ctx.count("auto-id:" + ("same-on-the-wire" if ids.get("Q") == ids.get("E") else "distinct-on-the-wire"))
+        ctx.spec_total += 1
+        bad = [w for w in ("E", "Q") if outs.get(w, ("?",))[0] == "ret" and outs[w][1] != w]
+        if bad or ids.get("Q") == ids.get("E"):
+            ctx.spec_violation("library-chosen-id-collides-with-an-outstanding-explicit-id", case,
+                               f"ids on the wire {ids}; outcomes {outs}")
+        if ids.get("Q") is not None:
+            last = ids["Q"]
+
+
 def check_transport_batches(ctx):
     """The answers of all outstanding requests arrive in ONE batch array line (legal while no version >= 2025-06-18 was
     negotiated) that also carries members the parser rejects: every caller still gets its own answer."""
@@ -356,6 +425,7 @@ def run(ctx):
     explore(ctx, model, spec)
     check_transport_bursts(ctx)
     check_transport_batches(ctx)
+    check_auto_id_collisions(ctx)
     if ctx.thorough:
         lib.coqchk(ctx, "C18")
     ctx.rule = ("(a) 2-4 real send_message tasks on one stream pair under a virtual clock: every permutation of the answer order x 5 timing "
@@ -364,13 +434,19 @@ def run(ctx):
                 "through the model; caller ids incl. twins that differ only in JSON type (\"7\" vs 7) with late answers; "
                 "(b) 1-3 callers through the real StdioClient over a scripted child with bursts of 0..150 (thorough: 1000) unrelated "
                 "notifications written ahead of each response in one chunk; (c) 2-3 callers through the real StdioClient whose answers "
-                "arrive in ONE batch array line with a malformed member (6 kinds) at every position; distinct = distinct scenario dicts")
+                "arrive in ONE batch array line with a malformed member (6 kinds) at every position; (d) a library-chosen id beside an "
+                "explicit id guessed from the last two the library handed out; distinct = distinct scenario dicts")
     return lib.finish(ctx, TRUSTED, ASSUME)
 
 
 def replay(ctx, data):
     spec = lib.Driver("C18Spec")
     c = data["case"]
+    if "explicit_id_of_E" in c:
+        check_auto_id_collisions(ctx)
+        for f in ctx.spec_fail:
+            print("REPRODUCED", f["class"], f["detail"][:300])
+        return 1 if ctx.spec_fail else 0
     if c.get("via") == "StdioClient":
         batch = None
         if c.get("one_batch_line"):
